@@ -797,6 +797,13 @@ def run(ctx):
     part_a(ctx, res)
     part_c(ctx, res)
     part_b(ctx, res)
+    # what a node queues for a peer (inventories, blocks, transactions) must reach the peer's socket, complete and in order
+    chain.patch(horizon=-1)
+    keys_ = chain.Keys(ctx.rng, 4)
+    tree_ = chain.Tree(ctx.rng, keys_)
+    tree_.grow(5, fork_prob=0.2)
+    node.write_path_probe(res, ctx.rng, node.probe_messages(tree_, keys_, ctx.rng), "inventories, blocks and transactions")
+    chain.unpatch()
     res.rule = ("A: the node's locator and its inventory reply (real handle_get_blocks_message_received / "
                 "get_get_blocks_message) for honest locators of every other tip and adversarial locators over chains with "
                 "forks at depths 1, 3, 9, 12 and near genesis, batch size 5 and 500, against the model. B (execution, not a "
